@@ -16,6 +16,8 @@ for sid in sorted(os.listdir(f"{ROOT}/seeded")):
         by = "(not run)"
     else:
         by = ", ".join(dj.get("detected_by", [])) or "—"
+        if meta.get("status_note"):
+            by += " (" + meta["status_note"].split(":")[0] + ")"
         if dj.get("broken_checks"):
             by += " (exit 2: " + ", ".join(dj["broken_checks"]) + ")"
         tot += 1
